@@ -1,3 +1,4 @@
+pub mod c01;
 pub mod c02;
 pub mod c03;
 pub mod c04;
@@ -35,5 +36,6 @@ pub fn all() -> Vec<Entry> {
         Entry { scn: &c10::C10Agent, quick_runs: 20_000, thorough_runs: 1_000_000 },
         Entry { scn: &c10::C09Agent, quick_runs: 20_000, thorough_runs: 1_000_000 },
         Entry { scn: &c11::C11Tcp, quick_runs: 20_000, thorough_runs: 1_000_000 },
+        Entry { scn: &c01::C01Scopes, quick_runs: 60_000, thorough_runs: 3_000_000 },
     ]
 }
